@@ -70,6 +70,7 @@ ARCH_PATH = {"zip": "pkg/Archive.zip", "7z": "pkg/Archive.7z", "tar:plain": "pkg
              "tar:bz2": "pkg/Archive.tar.bz2", "tar:xz": "pkg/Archive.tar.xz"}
 META_FILE_FIELDS = ("filename", "file_extension", "file_path", "folder_path")
 MAXLEN = 6
+WIDE_NAMES = ["a\u4e00b", "\u00e9\u3000x", "z\u0100", "2024\u3000\u5831\u544a", "\u0436\u0400q", "\u7b2c\u4e00\u7ae0"]
 
 
 # ------------------------------------------------------------------------------------------------------------ members
@@ -142,7 +143,12 @@ def build_members(case, seed):
             cur = cur + t["dir"] + "/"
             out.append({"name": cur.rstrip("/"), "kind": "dir", "data": None, "pos": i})
             continue
-        base = ("." if kind == "hidden" else "") + t["name"] + "." + EXT[kind]
+        stem = t["name"]
+        if case["lay"].get("names") == "wide":
+            # non-ASCII names; in UTF-16LE (7z) a character below U+0100 followed by one whose low byte is 00 puts two zero
+            # bytes next to each other across a code-unit boundary
+            stem = stem[:4] + WIDE_NAMES[i % len(WIDE_NAMES)]
+        base = ("." if kind == "hidden" else "") + stem + "." + EXT[kind]
         data = member_bytes(seed, i, kind)
         if cor and cor[0] == i and cor[1] == "doc":
             data = damage(data)
@@ -539,6 +545,12 @@ def layouts(tier):
     out += [{"arch": "tar", "comp": c, "fmt": "gnu"} for c in TAR_COMP]
     for coder, layout in itertools.product(SZ_CODERS, SZ_LAYOUTS):
         out.append({"arch": "7z", "coder": coder, "layout": layout, "header": "plain", "between": False, "attrs": "unix"})
+    # member names outside ASCII (base cases only)
+    out += [{"arch": "zip", "comp": "stored", "names": "wide"}, {"arch": "tar", "comp": "plain", "names": "wide"},
+            {"arch": "tar", "comp": "gz", "fmt": "gnu", "names": "wide"}]
+    for coder, layout in itertools.product(SZ_CODERS, SZ_LAYOUTS):
+        out.append({"arch": "7z", "coder": coder, "layout": layout, "header": "plain", "between": False, "names": "wide"})
+    out.append({"arch": "7z", "coder": "lzma2", "layout": "solid", "header": "encoded", "between": True, "names": "wide"})
     return out
 
 
@@ -555,7 +567,7 @@ def sequences(tier):
 def corruptions(lay, seq):
     """corruption kinds applicable at each position (the base archive has >= 1 other member with a result)"""
     out = []
-    if lay.get("fmt") or lay.get("attrs"):
+    if lay.get("fmt") or lay.get("attrs") or lay.get("names"):
         return out
     for p, kind in enumerate(seq):
         if kind not in STREAM_KINDS:
